@@ -111,7 +111,7 @@ func newCMS(rows, cols uint, redis bool) (cmsHandle, error) {
 
 func init() { register("cms", suiteCMS) }
 
-var cmsCounts = []uint64{1, 1, 1, 2, 3, 7, 1 << 32, 1 << 40}
+var cmsCounts = []uint64{1, 1, 1, 2, 3, 7, 0, 1 << 32, 1 << 40}
 
 // learnCMSPos: per-row column of e, from one update on a fresh sketch
 func learnCMSPos(rows, cols uint, redis bool, e []byte) ([]uint64, error) {
